@@ -52,6 +52,9 @@ def make_cases(tier, seed, n_random=None, maxlen=None):
             if sr == "Float":
                 # the exported default class (genlm.grammar.wfsa.WFSA) inherits the same methods
                 cases.append(dict(name=name, a=a, sr=sr, cls="field", ren="id", maxlen=maxlen))
+        if i % 3 == 0:
+            # integer labels including 0: epsilon is the label '' and nothing else (strengthened after seeded change C11-6)
+            cases.append(dict(name=name + "#ids", a=dom_wfsa.int_labels(a), sr=srs[i % len(srs)], cls="base", ren="id", maxlen=maxlen))
     return cases
 
 
